@@ -21,6 +21,8 @@ type c12Scenario struct {
 	// arbitrator force closes.
 	Lo uint32 `json:"lo,omitempty"`
 	Hi uint32 `json:"hi,omitempty"`
+	// Start "late": Lo is already past a cutoff (skipped heights).
+	Start string `json:"start,omitempty"`
 	// disp: optional go-to-chain step at height H0 ("chain": a block epoch,
 	// "user": a force-close request, "none": nothing), then the confirmation of
 	// one commitment ("local", "remote", "pending"), a breach or a cooperative
@@ -59,6 +61,9 @@ func vtag(c *c12Cell, sc c12Scenario) string {
 	}
 	if sc.Restart != "" {
 		t = append(t, "restart:"+sc.Restart)
+	}
+	if sc.Start != "" {
+		t = append(t, "start:"+sc.Start)
 	}
 	if len(t) == 0 {
 		return ""
@@ -249,6 +254,7 @@ func runDisp(cell c12Cell, sc c12Scenario, info func(string, ...any)) (res c12Di
 			// One signature per panic site (not per scenario): the site names the
 			// defect, the replay names one execution that reaches it.
 			st := debug.Stack()
+			obs = w.snapshot()
 			viols = append(viols, c12Viol{
 				Sig: "disp/panic/at=" + panicSite(st),
 				What: fmt.Sprintf("panic in the arbitrator (pre=%s conf=%s%s): %v\n%s", sc.Pre, sc.Conf,
